@@ -257,7 +257,7 @@ func (w *World) engine(depth, loops int) *Engine {
 			depth = 8
 		}
 	}
-	return &Engine{ifaceFlow: w.ifaceFlow, fieldFunc: w.fieldFuncDefault, variadicUnused: w.variadicUnused, fieldConst: w.fieldConstDefault, uniqueImpl: w.uniqueImpl, globalInit: w.globalInits(), prog: w.prog, fset: w.fset, modPrefix: modPath, maxDepth: depth, loopBound: loops, maxPaths: 20000, funcByName: w.funcs, opaque: map[string]bool{}, hof: map[string]int{}, hofMethod: map[string]string{}}
+	return &Engine{ifaceFlow: w.ifaceFlow, fieldFunc: w.fieldFuncDefault, variadicUnused: w.variadicUnused, fieldConst: w.fieldConstDefault, fieldConstByName: w.fieldConstByName, uniqueImpl: w.uniqueImpl, globalInit: w.globalInits(), prog: w.prog, fset: w.fset, modPrefix: modPath, maxDepth: depth, loopBound: loops, maxPaths: 20000, funcByName: w.funcs, opaque: map[string]bool{}, hof: map[string]int{}, hofMethod: map[string]string{}}
 }
 
 func (w *World) pos(p token.Pos) string {
